@@ -43,10 +43,21 @@ Theorem c06_failed_select : forall t st w e st' evs,
 Proof. exact failed_select_step. Qed.
 Print Assumptions c06_failed_select.
 
+(** (a, "successful") a session becomes authenticated only in a LOGIN or
+    AUTHENTICATE line whose own tagged completion is OK, on TLS, after the
+    backend answered 200 — for any table in which no tagged NO/BAD can follow
+    the assignment state.Authenticated := true ([f_auth_final]). *)
+Theorem c06_auth_only_by_accepted_login : forall t st w e st' evs,
+  guards_ok t = true -> f_auth_final t = true -> Inv st ->
+  step t st w e = Some (st', evs) -> c_auth st = false -> c_auth st' = true ->
+  is_login w = true /\ e_reply_ok e = true /\ c_tls st = true /\ e_ok200 e = true.
+Proof. exact auth_only_by_accepted_login. Qed.
+Print Assumptions c06_auth_only_by_accepted_login.
+
 (** The obligations on the CURRENT tree: recomputed from the regenerated table. *)
 Theorem c06_facts_now :
   guards_ok Gen.Facts.table && restart_ok Gen.Facts.table && replies_ok Gen.Facts.table
-  && f_select_clears Gen.Facts.table = true.
+  && f_select_clears Gen.Facts.table && f_auth_final Gen.Facts.table = true.
 Proof. vm_compute. reflexivity. Qed.
 Print Assumptions c06_facts_now.
 
@@ -61,7 +72,7 @@ Print Assumptions c06_refuted_tag_only_line.
     clearing the previous selection survives a failed SELECT *)
 Theorem c06_unfixed_failed_select_keeps :
   let st := mk_c true true true 1 false 0 (Personal 1) [] in
-  let e := mk_env false 0 [] (fun _ _ => false) 0 0 [] (TPersonal false) false in
+  let e := mk_env false 0 [] (fun _ _ => false) 0 0 [] (TPersonal false) false false in
   select_succeeds st e = false /\ c_sel (fst (do_select false st e)) = true.
 Proof. exact unfixed_failed_select_keeps. Qed.
 
@@ -70,14 +81,14 @@ Proof. exact unfixed_failed_select_keeps. Qed.
     authenticates, SELECT selects, FETCH touches the selected store. *)
 Definition pick (w fn : string) (k : site_kind) : list site :=
   filter (fun s => String.eqb (s_cmd s) w && String.eqb (s_fn s) fn && kind_eqb (s_kind s) k) (f_sites Gen.Facts.table).
-Definition env0 : env := mk_env false 0 [] (fun _ _ => false) 0 0 [] (TPersonal true) true.
+Definition env0 : env := mk_env false 0 [] (fun _ _ => false) 0 0 [] (TPersonal true) true true.
 Definition env_login : env :=
   mk_env true 7 [] (fun _ _ => false) 0 0
     (filter (fun s => String.eqb (s_cmd s) "LOGIN" &&
                       match s_kind s with Backend | AccShared | SetAuth => true | _ => false end)
-            (f_sites Gen.Facts.table)) (TPersonal true) true.
+            (f_sites Gen.Facts.table)) (TPersonal true) true true.
 Definition env_fetch : env :=
-  mk_env false 0 [] (fun _ _ => false) 0 0 (pick "FETCH" "message.HandleFetch" AccSelected ++ pick "FETCH" "message.HandleFetch" UseSel) (TPersonal true) true.
+  mk_env false 0 [] (fun _ _ => false) 0 0 (pick "FETCH" "message.HandleFetch" AccSelected ++ pick "FETCH" "message.HandleFetch" UseSel) (TPersonal true) true true.
 
 Example c06_example_run :
   match run Gen.Facts.table (init_state false)
